@@ -675,10 +675,9 @@ pub fn compare_tokens(clause: &'static str, a_text: &str, a: &Canon, b_text: &st
         };
         let fam = |p: usize, s: &str| (p, s.to_string(), true, loc);
         // a multi-line string token whose text changed only in whitespace (its continuation lines were re-indented)
-        if dels.len() == 1 && all_inss.len() == 1 && {
-            let (x, y) = (&dels[0].text, &all_inss[0].text);
+        if !dels.is_empty() && dels.len() == all_inss.len() && {
             let stringish = |t: &str| is_long(t) || t.starts_with('"') || t.starts_with('\'') || t.starts_with("S<");
-            stringish(x) && stringish(y) && x.contains('\n') && strip_ws(x) == strip_ws(y)
+            dels.iter().zip(all_inss.iter()).all(|(x, y)| stringish(&x.text) && stringish(&y.text) && strip_ws(&x.text) == strip_ws(&y.text)) && dels.iter().any(|x| x.text.contains('\n'))
         } {
             return fam(0, "tokens:multiline-string-content-reindented");
         }
@@ -697,6 +696,9 @@ pub fn compare_tokens(clause: &'static str, a_text: &str, a: &Canon, b_text: &st
         }
         if !cfg.spacing.space_around_assign_operator && pair(&|x| x == ">", &|y| y == "=") {
             return fam(4, "tokens:attrib-close-assign-glued(space_around_assign_operator=false)");
+        }
+        if dels.len() == 1 && all_inss.len() == 1 && all_inss[0].text == "=" && dels[0].parent == LuaSyntaxKind::AssignStat && dels[0].text.len() >= 2 && dels[0].text.ends_with('=') {
+            return fam(5, "tokens:compound-assign-operator-replaced-by-assign");
         }
         if dels.iter().any(|t| t.text == "[" && t.parent == LuaSyntaxKind::TableFieldAssign) && !all_inss.iter().any(|t| t.text == "[") {
             return fam(5, "tokens:table-bracket-key-dropped");
@@ -981,7 +983,13 @@ pub fn compare(a_text: &str, a: &Canon, b_text: &str, b: &Canon, cfg: &LuaFormat
         return Some(Diff {
             loc: xa.map(|x| x.0.off).unwrap_or(0),
             clause: "C",
-            sig: if a.dash_run_lines > 0 { "C:dash-run-line-respaced".to_string() } else { format!("C:doc-structure:{kind}") },
+            sig: if a.dash_run_lines > 0 {
+                "C:dash-run-line-respaced".to_string()
+            } else if !cfg.spacing.space_around_math_operator && (da.contains("TkMinus") || da.contains("TkPlus")) {
+                "C:doc-type-operator-respaced(space_around_math_operator=false)".to_string()
+            } else {
+                format!("C:doc-structure:{kind}")
+            },
             msg: format!(
                 "a doc comment parses differently: input item {} near {}; output item {} near {}",
                 xa.map(|x| x.1.1.as_str()).unwrap_or(""),
